@@ -1,6 +1,7 @@
 (* C08_Check.v — correspondence checker for C08 (soft delete). *)
 From Verif Require Export Base Sem Where_Model.
 From Verif Require Import Where_Render.
+From Verif Require Export C08_Hist.
 
 Record case := mk_case {
   c_atoms : atom_table;
@@ -17,7 +18,11 @@ Record case := mk_case {
   o_unscoped_find : list Z; n_unscoped_find : list Z; o_unscoped_del : list Z;
   o_assoc : list (list Z); n_assoc : list (list Z);
   o_uassoc : list (list Z); n_uassoc : list (list Z); (* the same paths under Unscoped *)   (* preload / association lookups / joins of soft-delete models, with and without twins *)
-  o_errs : Z
+  o_errs : Z;
+  (* a history of creates, scoped / Unscoped deletes and updates, reads (C08_Hist.v): the table it
+     starts from, its steps, and per step what the caller observed and the table afterwards *)
+  h_init : hstate; h_ops : list hop;
+  h_obs : list (list Z); h_states : list hstate
 }.
 
 Definition tok_eqb (a b : tok) : bool :=
@@ -99,4 +104,39 @@ Definition spec_holds (c : case) : bool :=
   && list_eqb zlist_eqb (o_uassoc c)
        (map (fun l => merge_sorted (List.length l * 2 + 2) l (map (fun i => (i + 100)%Z) l)) (n_uassoc c)).
 
-Definition check_case (c : case) : N := code_of (model_agrees c) (spec_holds c).
+(* ---- histories ---- *)
+Definition hrow_eqb (a b : hrow) : bool :=
+  (hid a =? hid b)%Z && (hval a =? hval b)%Z && option_eqb Z.eqb (hdel a) (hdel b).
+Definition hstate_eqb := list_eqb hrow_eqb.
+Definition prow_eqb (a b : prow) : bool := (fst a =? fst b)%Z && (snd a =? snd b)%Z.
+
+(* the model's run, step by step *)
+Fixpoint hsteps (s : hstate) (ops : list hop) : list (list Z * hstate) :=
+  match ops with
+  | [] => []
+  | o :: r => let (s1, ob) := hstep s o in (ob, s1) :: hsteps s1 r
+  end.
+Definition hist_model_agrees (c : case) : bool :=
+  let ms := hsteps (h_init c) (h_ops c) in
+  list_eqb zlist_eqb (map fst ms) (h_obs c) && list_eqb hstate_eqb (map snd ms) (h_states c).
+
+(* the property on what gorm did: a caller who never says Unscoped sees, step by step, what the
+   plain table shows; scoped steps never remove a row and leave marked rows byte-identical *)
+Fixpoint hist_spec (prev : hstate) (pl : list prow) (ops : list hop) (obs : list (list Z)) (sts : list hstate) : bool :=
+  match ops, obs, sts with
+  | [], [], [] => true
+  | o :: r, ob :: obs', st :: sts' =>
+    let (pl1, pob) := pstep pl o in
+    list_eqb prow_eqb (erase st) pl1
+    && (negb (is_scoped o) ||
+        (zlist_eqb ob pob
+         && zlist_eqb (map hid st) (map hid prev ++ match o with OCreate i _ => [i] | _ => [] end)
+         && forallb (fun r => live r || existsb (hrow_eqb r) st) prev))
+    && hist_spec st pl1 r obs' sts'
+  | _, _, _ => false
+  end.
+Definition hist_spec_holds (c : case) : bool :=
+  hist_spec (h_init c) (erase (h_init c)) (h_ops c) (h_obs c) (h_states c).
+
+Definition check_case (c : case) : N :=
+  code_of (model_agrees c && hist_model_agrees c) (spec_holds c && hist_spec_holds c).
